@@ -7,7 +7,7 @@ order, nothing after the failing element in the block ran, the following blocks 
 workload runs seeded mutations of well-formed documents through fromXML + validate + stepping; there only process survival
 (signals, sanitizer reports, hangs) is judged.
 """
-import os, sys, json, random, copy, collections, re
+import os, sys, json, random, copy, collections, re, zlib
 from vf import common, chart as C, trace as T, c01lib, refscxml, compare
 from vf.common import Check
 
@@ -134,6 +134,9 @@ def work(job):
         refs[vid] = ref
         if ref.diverged: continue
         run.append({'id': vid, 'xml': render_cond(ch, dm), 'engine': 'large', 'hist': hist, 'flags': ['cancelend'] if vid.endswith('c') else []})
+        if zlib.crc32(vid.encode()) % 2 == 0:
+            # the other engine has its own try/catch blocks around handlers: same document, judged against the reference under its selection rule
+            run.append({'id': vid + '@fast', 'xml': render_cond(ch, dm), 'engine': 'fast', 'hist': hist, 'flags': ['cancelend'] if vid.endswith('c') else []})
     res = c01lib.run_batch(binary, run)
     out = []
     for vid, tag, ch, hist, dm, kind in built:
@@ -162,6 +165,26 @@ def work(job):
                 else:
                     rec['v'] = 'bad'; rec['k'] = 'error-handling-differs:%s:%s' % (kind, classify(d)); rep['first_divergence'] = d; rec['replay'] = rep
         out.append(rec)
+        pf = res.get(vid + '@fast')
+        if pf is not None and rec['v'] in ('ok', 'c01-finding'):
+            recf = {'id': vid + '@fast', 'kind': kind, 'where': rec['where'] + '@fast', 'dm': dm, 'v': 'ok', 'hash': vid + '@fast', 'errors_expected': rec['errors_expected']}
+            repf = dict(rep, engine='fast')
+            if pf['timeout']: recf['v'] = 'bad'; recf['k'] = 'hang:fast:' + kind; recf['replay'] = repf
+            elif pf['crash']: recf['v'] = 'bad'; recf['k'] = 'crash:fast:%s:%s' % (kind, dm); repf['stderr'] = pf.get('stderr'); repf['summary'] = pf['crash']; recf['replay'] = repf
+            elif pf['thrown']: recf['v'] = 'bad'; recf['k'] = 'exception-escapes-step:fast:' + kind; repf['thrown'] = pf['thrown']; recf['replay'] = repf
+            else:
+                verdicts = []
+                for vs in (('static_select', 'static_domain'), (), ('static_domain',)):
+                    rf = FaultRef(ch, vs); rf.interpret(hist, cancel_end=vid.endswith('c'))
+                    if rf.diverged: verdicts.append(('diverged', None, None)); continue
+                    verdicts.append(c01lib.compare_case(ch, hist, dm, 'fast', pf, rf))
+                    if verdicts[-1][0] == 'ok': break
+                if not any(v[0] in ('ok', 'diverged') for v in verdicts):
+                    v, k, d = verdicts[0]
+                    if k in ('nested-history-shared-store', 'history-target-static-domain'): recf['v'] = 'c01-finding'
+                    else:
+                        recf['v'] = 'bad'; recf['k'] = 'error-handling-differs:fast:%s:%s' % (kind, classify(d)); repf['first_divergence'] = d; recf['replay'] = repf
+            out.append(recf)
     return out
 
 
@@ -342,7 +365,7 @@ def main(tier, replay):
         case = json.load(open(replay))['case']
         p = c01lib.run_batch(binary, [{'id': 'r', 'xml': case['xml'], 'engine': 'large', 'hist': case['history']}])['r']
         print('\n'.join(l for l in p['lines'] if l[:2] in ('E ', 'L ', 'R ', 'MA', 'TH'))[:4000]); print(p['crash']); sys.exit(1 if p['crash'] or p['timeout'] else 0)
-    ndocs = 36 if tier == 'quick' else 600
+    ndocs = 54 if tier == 'quick' else 600
     base = chk.seed * 1000000 + 707
     cases = [('f%d' % i, base + i, ('lua', 'promela', 'null')[i % 3] if i % 9 else 'null') for i in range(ndocs)]
     jobs = [(binary, cases[i:i + 2]) for i in range(0, len(cases), 2)]
